@@ -33,6 +33,8 @@ Sb(src, base, off) == I("sb", "zero", base, src, off, 0)
 Sh(src, base, off) == I("sh", "zero", base, src, off, 0)
 Addi(rd, rs, v) == I("addi", rd, rs, "zero", v, 0)
 AddI(rd, a, b) == I("add", rd, a, b, 0, 0)
+B(op, a, b, t) == I(op, "zero", a, b, 0, t)
+J(t) == I("j", "zero", "zero", "zero", 0, t)
 
 Regs0(a0, a1, t0, t1, t2, t3) ==
   [r \in PRegs |-> CASE r = "a0" -> FromInt(a0) [] r = "a1" -> FromInt(a1) [] r = "t0" -> FromInt(t0)
@@ -165,12 +167,20 @@ ErrIns == { I("div", "t2", "t1", "t0", 0, 0), I("rem", "t2", "t1", "t0", 0, 0), 
             I("beqz", "zero", "t0", "zero", 0, -1), I("jal", "ra", "zero", "zero", 0, -1), I("bne", "zero", "t1", "t0", 0, -1) }
 ErrPrefix == { <<>>, <<Nop>>, <<Li("t3", 1), Addi("t3", "t3", 1)>>, <<Lw("t3", "a0", 0)>>, <<Sw("t1", "a0", 0), Nop>>,
                <<Lw("t3", "a0", 0), Addi("t3", "t3", 1), Nop>> }
+(* the divisor arrives late (loaded zero) and a jump / taken branch follows the faulting instruction *)
+ErrSlowPre == { <<Lw("t0", "a0", 0)>>, <<Lw("t0", "a0", 0), Nop>>, <<Li("t3", 1), Lw("t0", "a0", 0)>> }
+ErrSlowPost == { <<J(0)>>, <<B("beqz", "zero", "zero", 0), Nop>>, <<I("jal", "ra", "zero", "zero", 0, 0)>>, <<Nop, J(0)>> }
 ErrCases == { <<pre, e, post>> : pre \in ErrPrefix, e \in ErrIns, post \in {<<>>, <<Nop>>, <<Li("t2", 1), Ret>>} }
+            \cup { <<pre, e, post>> : pre \in ErrSlowPre, e \in {I("div", "t2", "t1", "t0", 0, 0), I("rem", "t2", "t1", "t0", 0, 0)}, post \in ErrSlowPost }
 ErrCase(x) ==
-  LET p == x[1] \o <<x[2]>> \o x[3]
-      r0 == Regs0(64, 128, 0, 7, 0, 0)
-      fin == Final(p, r0, "ramp", 256, 64)
-  IN CaseRec("Err", p, r0, "ramp", 256, fin, {}, {}, Tags(p, fin), [depth |-> Len(x[1])])
+  LET slow == x[1] \in ErrSlowPre
+      p0 == x[1] \o <<x[2]>> \o x[3]
+      \* jumps of the "slow" posts go to the end of the text
+      p == [k \in 1 .. Len(p0) |-> IF slow /\ k > Len(x[1]) + 1 /\ p0[k].op \in {"j", "jal", "beqz"} THEN [p0[k] EXCEPT !.tgt = Len(p0)] ELSE p0[k]]
+      r0 == IF slow THEN Regs0(64, 128, 9, 7, 0, 0) ELSE Regs0(64, 128, 0, 7, 0, 0)
+      img == IF slow THEN "zero" ELSE "ramp"
+      fin == Final(p, r0, img, 256, 64)
+  IN CaseRec("Err", p, r0, img, 256, fin, {}, {}, Tags(p, fin), [depth |-> Len(x[1])])
 
 (* -------------------------------- Timing (C12) ----------------------------- *)
 (* value-only variation: same program, same addresses and path, different data registers *)
@@ -179,13 +189,16 @@ TimingProgs == { <<AddI("t2", "t0", "t1"), I("mul", "t2", "t2", "t0", 0, 0), Sw(
                  <<Sb("t0", "a0", 1), Lb("t1", "a0", 1), AddI("t2", "t1", "t1"), Sh("t2", "a1", 2), Nop>>,
                  <<Lw("t2", "a0", 0), AddI("t2", "t2", "t0"), Sw("t2", "a1", 4), I("sub", "t1", "t1", "t2", 0, 0), Nop, Nop>>,
                  <<I("div", "t2", "t0", "t3", 0, 0), I("rem", "t1", "t0", "t3", 0, 0), I("and", "t2", "t2", "t1", 0, 0), Nop>> }
+(* stores whose data may or may not equal what memory already holds *)
+TimingStores == { <<Sw("t0", "a0", 0), Nop>>, <<Sb("t1", "a1", 3), Sw("t0", "a0", 4), Nop, Nop>>, <<Sw("t0", "a0", 0), Lw("t2", "a0", 0), Nop>>,
+                  <<Sh("t0", "a0", 2), AddI("t2", "t0", "t1"), Nop>> }
 TimingVals == { <<1, 2>>, <<-1, 65536>>, <<2147483647, -2147483647>>, <<0, 0>> }
-TimingCases == { <<p, v>> : p \in TimingProgs, v \in TimingVals }
+TimingCases == { <<p, v, img>> : p \in TimingProgs \cup TimingStores, v \in TimingVals, img \in {"ramp", "zero"} }
 TimingCase(x) ==
   LET p == x[1]
       r0 == Regs0(64, 128, x[2][1], x[2][2], 0, 3)
-      fin == Final(p, r0, "ramp", 256, 64)
-  IN CaseRec("Timing", p, r0, "ramp", 256, fin, {}, {}, Tags(p, fin), [group |-> 0])
+      fin == Final(p, r0, x[3], 256, 64)
+  IN CaseRec("Timing", p, r0, x[3], 256, fin, {}, {}, Tags(p, fin), [group |-> 0])
 
 (* --------------------------------- Call (C03, C01) -------------------------- *)
 (* a leaf function called from several sites and returning through jalr: the same   *)
@@ -225,8 +238,6 @@ LineFillCase(x) ==
 (* bytes).  These programs are inside the envelope by construction.                   *)
 RepoRegs == {"ra", "a0", "a1", "a2", "t0", "t1", "t2", "t3", "t4", "t5"}
 RR(a0, a1, a2) == [r \in RepoRegs |-> CASE r = "a0" -> FromInt(a0) [] r = "a1" -> FromInt(a1) [] r = "a2" -> FromInt(a2) [] OTHER -> Zero32]
-B(op, a, b, t) == I(op, "zero", a, b, 0, t)
-J(t) == I("j", "zero", "zero", "zero", 0, t)
 WordsAt(base, vals) ==      \* memory contents: 32-bit little-endian words from `base`
   [a \in base .. (base + 4 * Len(vals) - 1) |-> Bytes(FromInt(vals[((a - base) \div 4) + 1]))[((a - base) % 4) + 1]]
 BytesAt(base, bs) == [a \in base .. (base + Len(bs) - 1) |-> bs[a - base + 1]]
@@ -278,11 +289,26 @@ RepoCase(x) ==
       tags == IF kind \in {"len", "copy"} THEN {"shadow_of_slow_branch"} ELSE {}
   IN [CaseRec("Repo", p, r0, "zero", 512, fin, {}, {}, tags, [kind |-> kind, a |-> x[2], b |-> x[3]]) EXCEPT !.mem0 = m0]
 
-Cases == CASE Family = "Shadow" -> ShadowCases [] Family = "Repo" -> RepoCases [] Family = "Call" -> CallCases [] Family = "LineFill" -> LineFillCases
+(* ------------------------------- Unroll (C05, C07) -------------------------- *)
+(* straight-line walks (no branch, hence no pipeline flush): n accesses at stride 64  *)
+(* from a possibly unaligned first address evict the first line, which is then        *)
+(* accessed again and used                                                            *)
+UnrollCases == { <<first, n, st>> : first \in {0, 4, 60}, n \in {17, 18}, st \in BOOLEAN }
+UnrollCase(x) ==
+  LET first == x[1] n == x[2]
+      acc(k) == IF x[3] /\ k % 3 = 0 THEN <<Sw("t1", "a0", first + 64 * (k - 1))>> ELSE <<Lw("t0", "a0", first + 64 * (k - 1))>>
+      RECURSIVE Walk(_)
+      Walk(k) == IF k > n THEN <<>> ELSE acc(k) \o Walk(k + 1)
+      p == Walk(1) \o <<Lw("t2", "a0", first), AddI("t3", "t2", "t0"), Sw("t3", "a0", first + 8), Nop, Nop>>
+      r0 == Regs0(0, 0, 0, 77, 0, 0)
+      fin == Final(p, r0, "ramp", 2048, 64)
+  IN CaseRec("Unroll", p, r0, "ramp", 2048, fin, {"t0", "t2", "t3"}, {}, Tags(p, fin), [first |-> first, n |-> n])
+
+Cases == CASE Family = "Shadow" -> ShadowCases [] Family = "Repo" -> RepoCases [] Family = "Unroll" -> UnrollCases [] Family = "Call" -> CallCases [] Family = "LineFill" -> LineFillCases
            [] Family = "RegDep" -> RegDepCases [] Family = "Tail" -> TailCases
            [] Family = "MemDep" -> MemDepCases [] Family = "MemWalk" -> WalkCases [] Family = "Err" -> ErrCases
            [] Family = "Timing" -> TimingCases
-MkCase(x) == CASE Family = "Shadow" -> ShadowCase(x) [] Family = "Repo" -> RepoCase(x) [] Family = "Call" -> CallCase(x) [] Family = "LineFill" -> LineFillCase(x) [] Family = "RegDep" -> RegDepCase(x) [] Family = "Tail" -> TailCase(x)
+MkCase(x) == CASE Family = "Shadow" -> ShadowCase(x) [] Family = "Repo" -> RepoCase(x) [] Family = "Unroll" -> UnrollCase(x) [] Family = "Call" -> CallCase(x) [] Family = "LineFill" -> LineFillCase(x) [] Family = "RegDep" -> RegDepCase(x) [] Family = "Tail" -> TailCase(x)
                [] Family = "MemDep" -> MemDepCase(x) [] Family = "MemWalk" -> WalkCase(x) [] Family = "Err" -> ErrCase(x)
                [] Family = "Timing" -> TimingCase(x)
 
